@@ -41,6 +41,10 @@ def run(ctx, crate):
     # next println erase that many log lines (seed C03c)
     D.rule_finished_draws_forced(ctx, crate)
     D.rule_counted_newline_row_followed(ctx, crate)
+    # "every line written to the terminal by the closure passed to suspend stays": suspend's clear is an empty frame; if the paint
+    # routine can take a reposition-only path for it (move-cursor mode), the closure writes over bar rows that were never erased
+    # and its line keeps the tail of that bar (seed C03k)
+    D.rule_draw_order(ctx, crate)
 
 
 def rule_println_forced(ctx, crate, rule="R-PRINTLN-FORCED"):
